@@ -110,12 +110,14 @@ let handle (toks : string list) : string =
        String.concat " " (Stdlib.List.map ob obs @ ["M." ^ cells mem])
      | _ -> failwith "shm: bad header")
   | ("seg" | "wrt") as tag :: kind :: n :: rest ->
-    (* file object: kind 0 = file with the n bytes that follow, 1 = missing, 2 = directory *)
+    (* file object: kind 0 = file with the n bytes that follow, 1 = missing, 2 = directory,
+       3 = the path cannot be resolved, open fails with the errno given as the single "byte" *)
     let n = int_of_string n in
     let rec take k l acc = if k = 0 then (Stdlib.List.rev acc, l) else (match l with x :: t -> take (k - 1) t (x :: acc) | [] -> failwith "seg: short") in
     let (bs, tl) = take n rest [] in
     let bytes = Stdlib.List.map z_of_string bs in
-    let f = (match kind with "0" -> Open.FFile bytes | "1" -> Open.FMissing | _ -> Open.FDir) in
+    let f = (match kind with "0" -> Open.FFile bytes | "1" -> Open.FMissing
+                            | "3" -> Open.FNoPath (match bytes with e :: _ -> e | [] -> failwith "seg: errno expected") | _ -> Open.FDir) in
     let opn = Open.reader_open f in
     let ostr = (match opn with
       | Open.OpenOk _ -> "ok"
